@@ -349,7 +349,16 @@ func main() {
 				okB := map[string]bool{canonGlobals(alone.After): true, canonGlobals(ab["b"].Final): true, canonGlobals(ba["b"].Final): true, canonGlobals(ba["b"].After): true}
 				okA := map[string]bool{canonGlobals(aloneA.After): true, canonGlobals(ab["a"].Final): true, canonGlobals(ab["a"].After): true, canonGlobals(ba["a"].Final): true}
 				if !okB[canonGlobals(cc["b"].Final)] || !okA[canonGlobals(cc["a"].Final)] {
-					c.Fail("concurrent-parse-not-serialisable", "parsed concurrently, a package ends with values it has in neither sequential order",
+					// packages that write through a KNOWN leak race on the leaked object (a copy taken between two writes of the
+					// other package is in neither sequential order): that outcome is explained by the leak, and reported under its class
+					cls := "concurrent-parse-not-serialisable"
+					for _, a := range append(append([]action{}, A...), B...) {
+						if a.tag != "" && a.tag != tagSpare && a.tag != tagPlusEmpty {
+							cls = a.tag
+							break
+						}
+					}
+					c.Fail(cls, "parsed concurrently, a package ends with values it has in neither sequential order",
 						map[string]any{"files": srcs, "a": cc["a"].Final, "b": cc["b"].Final})
 					c.Hist("outcome", "concurrent-not-serialisable")
 				}
